@@ -94,12 +94,12 @@ def V(rule, kind, ctx, detail):
 def build_script(cell):
     N, pos, o = cell["N"], cell["pos"], cell["o"]
     target = {"first": 0, "middle": N // 2, "last": N}[pos]
-    fail = {"do": "raise", "exc": "ValueError", "msg": "advance"}
+    fail = {"do": "raise", "exc": "ValueError"}
     steps = [dict(fail) for _ in range(target)]
     if o == "ok":
         steps.append({"do": "ok", "ret": {"v": 1}})
     elif o.startswith("raise:"):
-        steps.append({"do": "raise", "exc": o.split(":")[1], "msg": "cell"})
+        steps.append({"do": "raise", "exc": o.split(":")[1]})
     elif o == "timeout":
         steps.append({"do": "ok", "d": 5.0})
     elif o in ("badpayload", "depfail"):
@@ -124,10 +124,10 @@ def build_script(cell):
             st["then"] = {"do": "ok", "ret": "second-delivery"}
         steps.append(st)
         if variant == "thenfail":
-            steps.append({"do": "raise", "exc": "RuntimeError", "msg": "after-forced"})
+            steps.append({"do": "raise", "exc": "RuntimeError"})
         elif variant == "thenfail2":
             steps.append(dict(st))  # forced once more
-            steps.append({"do": "raise", "exc": "RuntimeError", "msg": "after-forced-twice"})
+            steps.append({"do": "raise", "exc": "RuntimeError"})
     steps.append({"do": "ok", "ret": "after"})
     return {"by_attempt": steps}
 
@@ -304,6 +304,8 @@ async def scenario(loop, case, out, stats, fps, samples):
         stats["max_inflight"] = max(stats.get("max_inflight", 0), w.max_inflight)
         if w.max_inflight > case["tl"]:
             out.append(V("inv:slots", kind, "max_inflight", f"{w.max_inflight} actors in flight with tasks_limit={case['tl']}"))
+        if w.stale_deps:
+            out.append(V("inv:stale_message_dependency", kind, "actor", f"the actor's message dependency did not describe the delivery it ran for: {w.stale_deps[:3]}"))
         stats["unknown_server_commands"] += w.rig.unknown_commands()
     finally:
         await w.close()
